@@ -135,6 +135,7 @@ structure Hist where
   reqcmp : List (Nat × Bool) := []
   leak : Nat := 0
   own : List Nat := []
+  share : List (Nat × String) := []
   fatal : Option String := none
   t0 : Int := 0
   deriving Repr
@@ -205,6 +206,7 @@ def parseLine (h : Hist) (line : String) : Hist :=
   | ["O", "REQCMP", n, v] => { h with reqcmp := h.reqcmp ++ [(toNat n, v == "same")] }
   | ["O", "LEAK", n] => { h with leak := toNat n }
   | ["O", "OWN", n, "changed", _] => { h with own := toNat n :: h.own }
+  | ["O", "SHARE", n, what] => { h with share := (toNat n, what) :: h.share }
   | ["O", "FATAL", m] => { h with fatal := some (String.ofList (unhex m)) }
   | _ => h
 
